@@ -1,6 +1,7 @@
 (* C09 — pH-dependent charge follows Henderson–Hasselbalch; the isoelectric point neutralises the chain. *)
 From Coq Require Import Reals QArith Qabs ZArith List Bool.
-From LC Require Import Core.Residue Spec.Tables Model.Titration Proofs.Titration.
+From Coq Require Import Qreals.
+From LC Require Import Core.Residue Spec.Tables Model.Titration Proofs.Titration Proofs.PiTotal Proofs.PiReal.
 Import ListNotations.
 
 Theorem C09_NCPR_never_increases_with_pH ts N x y : counts_nonneg ts -> (0 < N)%R -> (x <= y)%R ->
@@ -40,6 +41,47 @@ Proof. exact (iso_failure_only_by_escape f). Qed.
 Theorem C09_pI_is_7_when_nothing_titrates f : (forall x, f x == 0)%Q -> fst (isoelectric f) = Some 7%Q.
 Proof. exact (pi_no_titratable f). Qed.
 Print Assumptions C09_pI_is_7_when_nothing_titrates.
+
+
+(* ---- get_isoelectric_point never raises ----
+   (1) pure Q, for EVERY oracle that is approximately non-increasing (slack 2/1000), approximately 1-Lipschitz over
+       distances <= 1/16, not below -11/1000 at pH <= 1 and not above 11/1000 at pH >= 15: the loop returns after at
+       most 28 evaluations (the escape clause fires at most once). *)
+Theorem C09_pI_never_raises_for_any_such_oracle (f : Q -> Q) :
+  (forall x y, x <= y -> f y <= f x + (2 # 1000))%Q ->
+  (forall x y, x <= y -> y - x <= 1 # 16 -> f x - f y <= (y - x) + (2 # 1000))%Q ->
+  (forall x, x <= 1 -> - (11 # 1000) <= f x)%Q ->
+  (forall x, 15 <= x -> f x <= 11 # 1000)%Q ->
+  exists x tr, isoelectric f = (Some x, tr) /\ (List.length tr <= 28)%nat.
+Proof. exact (bisect_total_28 f). Qed.
+Print Assumptions C09_pI_never_raises_for_any_such_oracle.
+
+(* (2) over R: for EVERY sequence with a titratable residue, every oracle within 1/1000 of the exact
+       Henderson-Hasselbalch mean charge per titratable residue (the float evaluation of
+       charge_at_pH(pH, normalize=True) is one; the harness measures its distance on every recorded call)
+       meets (1): no exception, at most 28 evaluations, and by C09_pI_within_threshold the result neutralises. *)
+Theorem C09_pI_never_raises s (f : Q -> Q) : (0 < ntit s)%Z ->
+  (forall q, (Rabs (Q2R (f q) - ncharge (titr_terms s) (Q2R q)) <= 1 / 1000)%R) ->
+  exists x tr, isoelectric f = (Some x, tr) /\ (List.length tr <= 28)%nat.
+Proof. exact (pi_never_raises s f). Qed.
+Print Assumptions C09_pI_never_raises.
+
+Theorem C09_pI_returned_pH_neutralises s (f : Q -> Q) : (0 < ntit s)%Z ->
+  (forall q, (Rabs (Q2R (f q) - ncharge (titr_terms s) (Q2R q)) <= 1 / 1000)%R) ->
+  exists x tr, isoelectric f = (Some x, tr) /\ (Qabs (f x) <= 2 # 100)%Q /\
+               (Rabs (ncharge (titr_terms s) (Q2R x)) <= 21 / 1000)%R.
+Proof. exact (pi_result_neutral s f). Qed.
+Print Assumptions C09_pI_returned_pH_neutralises.
+
+(* the hypotheses of (1) are satisfiable, and the escape clause is really needed: a linear oracle with its root at
+   pH 14.5 (an Arg-only chain has its pI there) is found on the 20th evaluation, after the one escape *)
+Example C09_oracle_conditions_satisfiable :
+  let f := fun x : Q => ((29 # 2) - x) * (1 # 8) in
+  ((forall x y, x <= y -> f y <= f x + (2 # 1000)) /\
+   (forall x y, x <= y -> y - x <= 1 # 16 -> f x - f y <= (y - x) + (2 # 1000)) /\
+   (forall x, x <= 1 -> - (11 # 1000) <= f x) /\ (forall x, 15 <= x -> f x <= 11 # 1000))%Q /\
+  fst (isoelectric f) = Some (7602169 # 524288) /\ List.length (snd (isoelectric f)) = 20%nat.
+Proof. exact oracle_example. Qed.
 
 (* the titratable table of the model: K, R, H positive; E, D, Y, C negative *)
 Example C09_terms : map snd (titr_terms [Lys]) = [true; true; true; false; false; false; false] /\
